@@ -20,6 +20,8 @@ fn check(s: &mut Session, label: &str, script: &str, r: &str, target_first: bool
 
 pub fn generate(s: &mut Session, tier: &str, rng: &mut Rng) {
     let thorough = tier == "thorough";
+    // "the server dials exactly the requested host and port": the target the local handshake extracts from the request
+    crate::c13::target_cases(s, if thorough { 6000 } else { 600 }, rng);
     let mut transports = vec!["tcp", "ws"];
     if tls_available() {
         transports.extend(["tls", "wss", "quic"]);
